@@ -133,6 +133,111 @@ def cacheKey {D : Type} (H : Bytes → D) (rs : List GeomRec) (c : ConvId) (vers
     Option D :=
   (cacheStream rs c version).map H
 
+/-! ### The order of the fields, declared (tied to the source by T)
+
+`harness/tables.py` reads the statements of `hash_geometry`, `make_cache_key`, `hash_string`, `hash_attributes` and
+`hash_int` off their ASTs as (hash function, text of what is hashed) and regenerates them into `Gen/Tables.lean`.
+Below, the model says in the same vocabulary which fields it hashes in which order; `Props/C16.lean` proves that
+these declarations equal the generated lists, and that `hashVar`, `trailer`, `hashChars`, `hashAttrs`,
+`hashGeometry` and `cacheStream` ARE the concatenation of the declared pieces in the declared order. -/
+
+/-- concatenation of the pieces of a stream in order; `none` as soon as one piece raises -/
+def seqBytes : List (Option Bytes) → Option Bytes
+  | [] => some []
+  | p :: ps =>
+    match p, seqBytes ps with
+    | some a, some b => some (a ++ b)
+    | _, _ => none
+
+/-- the things `hash_geometry` hashes of one geometry variable -/
+inductive VarField
+  | name | dtype | size | shape | data | attrs
+  deriving DecidableEq, Repr
+
+/-- how the loop body of `hash_geometry` spells the field: (hash function, argument), with `name` the loop
+variable and `var` the data array `self.dataset[name]` -/
+def VarField.source : VarField → String × String
+  | .name => ("hash_string", "str(name)")
+  | .dtype => ("hash_string", "var.encoding.get('dtype', var.values.dtype).name")
+  | .size => ("hash_int", "var.size")
+  | .shape => ("update", "numpy.array(var.shape, dtype='int32').tobytes('C')")
+  | .data => ("update", "var.to_numpy().tobytes('C')")
+  | .attrs => ("hash_attributes", "var.attrs")
+
+/-- the bytes the field contributes -/
+def VarField.bytes (r : GeomRec) : VarField → Option Bytes
+  | .name => hashString r.name
+  | .dtype => hashString r.dtype
+  | .size => hashInt (Ems.size r.shape)
+  | .shape => shapeBytes r.shape
+  | .data => some r.data
+  | .attrs => hashAttrs r.attrCount r.attrBlob
+
+def VarField.all : List VarField := [.name, .dtype, .size, .shape, .data, .attrs]
+
+/-- the order in which `hashVar` hashes the fields -/
+def hashVarOrder : List VarField := [.name, .dtype, .size, .shape, .data, .attrs]
+
+/-- the loop body of `hash_geometry` as the model has it: (hash function, what is hashed), in order -/
+def hashVarFields : List (String × String) := hashVarOrder.map VarField.source
+
+/-- the bytes of a field given by its spelling; a spelling the model does not know contributes an error -/
+def fieldBytes (r : GeomRec) (f : String × String) : Option Bytes :=
+  match VarField.all.find? (fun v => v.source = f) with
+  | some v => v.bytes r
+  | none => none
+
+/-- what the loop of `hash_geometry` runs over, and what `var` stands for -/
+def hashGeometryOver : List (String × String) :=
+  [("for", "self.get_all_geometry_names()"), ("var", "self.dataset[name]")]
+
+/-- the three strings of the trailer -/
+inductive TrailerField
+  | module | className | version
+  deriving DecidableEq, Repr
+
+def TrailerField.source : TrailerField → String × String
+  | .module => ("hash_string", "dataset.ems.__class__.__module__")
+  | .className => ("hash_string", "dataset.ems.__class__.__name__")
+  | .version => ("hash_string", "emsarray.__version__")
+
+def TrailerField.bytes (c : ConvId) (version : String) : TrailerField → Option Bytes
+  | .module => hashString c.module
+  | .className => hashString c.className
+  | .version => hashString version
+
+def TrailerField.all : List TrailerField := [.module, .className, .version]
+
+/-- the order in which `trailer` hashes them -/
+def trailerOrder : List TrailerField := [.module, .className, .version]
+
+/-- what `make_cache_key` hashes after the geometry, as the model has it -/
+def trailerFields : List (String × String) := trailerOrder.map TrailerField.source
+
+def trailerFieldBytes (c : ConvId) (version : String) (f : String × String) : Option Bytes :=
+  match TrailerField.all.find? (fun v => v.source = f) with
+  | some v => v.bytes c version
+  | none => none
+
+/-- `make_cache_key` as the model has it: the geometry, the trailer, the digest -/
+def makeCacheKeyFields : List (String × String) :=
+  ("hash_geometry", "dataset.ems") :: trailerFields ++ [("return", "hash.hexdigest()")]
+
+/-- `hash_string` as `hashChars` has it: the number of code points, then the UTF-8 bytes -/
+def hashStringFields : List (String × String) :=
+  [("hash_int", "len(value)"), ("update", "value.encode('utf-8')")]
+
+/-- `hash_attributes` as `hashAttrs` has it: marshal version 4, number of attributes, length of the blob, the blob -/
+def hashAttrsFields : List (String × String) :=
+  [("hash_int", "4"), ("hash_int", "len(attributes)"), ("hash_int", "len(marshal.dumps(attributes, 4))"),
+   ("update", "marshal.dumps(attributes, 4)")]
+
+/-- `hash_int` as `hashInt` has it: inside the int32 range the bytes of `numpy.int32(value)`, outside it an error -/
+def hashIntFields : List (String × String) :=
+  [("with", "numpy.errstate(over='raise')"),
+   ("if", "numpy.iinfo('int32').min <= value <= numpy.iinfo('int32').max"),
+   ("update", "numpy.int32(value).tobytes()"), ("else", ""), ("raise", "OverflowError"), ("endif", "")]
+
 /-! ### Positions inside the stream (for "a byte at a computable position") -/
 
 /-- Offset of the raw data bytes inside one variable's contribution:
